@@ -412,13 +412,24 @@ class DownloadSubmissionTask(SubmissionTask):
         # Get any associated tags for the get object task.
         get_object_tag = download_output_manager.get_download_task_tag()
 
-        # Get the final io task to run once the download is complete.
-        final_task = download_output_manager.get_final_io_task()
+        if get_object_tag is None:
+            # The data can be written as it arrives, and the final io task
+            # can run as soon as the download is complete.
+            get_object_task_cls = ImmediatelyWriteIOGetObjectTask
+            done_callback = download_output_manager.get_final_io_task()
+        else:
+            # A stream that cannot seek must not see the bytes again that a
+            # retried attempt delivers a second time, so its data goes
+            # through the output manager's queue like a ranged download.
+            get_object_task_cls = GetObjectTask
+            done_callback = self._get_final_io_task_submission_callback(
+                download_output_manager, io_executor
+            )
 
         # Submit the task to download the object.
         self._transfer_coordinator.submit(
             request_executor,
-            ImmediatelyWriteIOGetObjectTask(
+            get_object_task_cls(
                 transfer_coordinator=self._transfer_coordinator,
                 main_kwargs={
                     'client': client,
@@ -432,7 +443,7 @@ class DownloadSubmissionTask(SubmissionTask):
                     'io_chunksize': config.io_chunksize,
                     'bandwidth_limiter': bandwidth_limiter,
                 },
-                done_callbacks=[final_task],
+                done_callbacks=[done_callback],
             ),
             tag=get_object_tag,
         )
